@@ -3,7 +3,7 @@ from itertools import chain
 from parsimonious.grammar import Grammar
 
 
-PROCNAME_REGEX = re.compile(r"[a-zA-Z0-9_-]+")
+PROCNAME_REGEX = re.compile(r"[a-zA-Z0-9_]+")
 
 SINGLE_KEYWORD_STATEMENTS = {
     "END": "END",
